@@ -38,3 +38,62 @@ def replay_grid(V, pid, cases, names, label):
                         {"kind": "result_grid", "case": {k: case[k] for k in ("iscsd", "fs", "bins")}, "name": name,
                          "expected_def": case["exp"].get(name), "got": got, "expected": exp,
                          "message": f"SpectrumResult.{name} on {'csd' if case['iscsd'] else 'auto'} result: {got}; {exp}"})
+
+
+# --------------------------------------------------------------------------- recorded analyses (code -> spec)
+import random as _random
+
+from .. import resulttrace as _rt, traces as _traces
+
+SCHEDS = ["ltf", "lpsd", "vectorized_ltf", "new_ltf"]
+WINS = ["kaiser", "hann", "nuttall", "flattop"]
+
+
+def _rec(spec):
+    return _rt.record_analysis(spec)
+
+
+def trace_specs(tier, seed, variants_of, n_quick=10, n_thorough=80, backends=("numba", "numpy")):
+    rnd = _random.Random(4242 + seed)
+    specs = []
+    n = n_quick if tier == "quick" else n_thorough
+    for i in range(n):
+        sch = SCHEDS[i % 4]
+        specs.append(dict(seed=rnd.randrange(2 ** 31), N=rnd.choice([3000, 6000] if tier == "quick" else [3000, 8000, 20000]), fs=rnd.choice([1.0, 2.0, 250.0]),
+                          data=rnd.choice(["delay_coupled", "filtered", "independent", "gain_noise"]), sched=sch, win=WINS[(i // 4) % 4],
+                          order=rnd.choice([-1, 0, 1, 2]), backend=backends[i % len(backends)], Jdes=rnd.choice([30, 60]), Kdes=rnd.choice([5, 20]),
+                          Lmin=1 if sch == "lpsd" else rnd.choice([1, 64]), psll=rnd.choice([60, 120, 200]), variants=variants_of(rnd)))
+    return specs
+
+
+def run_traces(V, pid, tier, seed, variants_of, **kw):
+    specs = trace_specs(tier, seed, variants_of, **kw)
+    trs = common.pmap(_rec, specs, chunksize=1)
+    vd, tres = _traces.validate("ResultTrace", f"{pid}_rtrace", trs, timeout=3600)
+    V.model(tres, "ResultTrace.tla (recorded analyses and their variants, every bin)")
+    V.add("traces_validated_against_impl", len(trs))
+    kinds = {}
+    for t, v in zip(trs, vd):
+        V.case(t["meta"], True)
+        for e in t["ev"]:
+            kinds[e["t"]] = kinds.get(e["t"], 0) + 1
+        for (l, clause) in v:
+            if not clause.startswith(pid + ":"):
+                continue
+            e = t["ev"][l - 1]
+            V.violation(f"{pid}|trace|{e['t']}|{clause}|{t['meta']['backend']}",
+                        {"kind": "result_trace", "spec": t["meta"], "event": l, "clause": clause, "ev": e,
+                         "ref": t["ev"][e["j"] - 1] if "j" in e else None,
+                         "message": f"ResultTrace rejected event {l} ({e['t']}) of analysis {t['meta']['sched']}/{t['meta']['win']}/order {t['meta']['order']}/{t['meta']['backend']}: {clause}: {e}"})
+    V.set("trace_events_by_kind", kinds)
+    V.sample({"analysis": trs[0]["meta"], "first_bin_event": trs[0]["ev"][0]})
+    return trs
+
+
+def replay_trace(payload):
+    common.use_repo()
+    t = _rt.record_analysis(payload["spec"])
+    vd, _ = _traces.validate("ResultTrace", "rtrace_replay", [t])
+    bad = [c for (_, c) in vd[0] if c.startswith(payload["property"] + ":")]
+    print(bad)
+    return 1 if bad else 0
